@@ -222,6 +222,9 @@ func execConcurrent(t Target, w *World) *Result {
 	for _, pr := range res.Peers {
 		d += digest(pr)
 	}
+	if os.Getenv("VERIFSIM_DEBUG_CONC") != "" {
+		fmt.Fprintf(os.Stderr, "CONC turns=%s\n  %s\n", res.Turns, d)
+	}
 	CaseDigest = shaStr(CaseDigest + d + res.Turns)
 	return res
 }
